@@ -11,3 +11,7 @@ import JominiModel.Props.C18
 #print axioms Jomini.Props.C18.C18_alias_token
 #print axioms Jomini.Props.C18.C18_unknown_ignored
 #print axioms Jomini.Props.C18.C18_perm
+#print axioms Jomini.Props.C18.C18_run_eq_folds
+#print axioms Jomini.Props.C18.C18_undeliverable_key_rejected
+#print axioms Jomini.Props.C18.C18_known_unknown_int_key_binary
+#print axioms Jomini.Props.C18.C18_known_unknown_digit_key_token_struct
